@@ -546,7 +546,8 @@ def run(chk, replay=None):
                 f.write(text)
     chk.coverage['translator'] = {'status': 'ok' if not info['unparsed'] else 'partial', 'rules': info['rules'],
                                   'params': info['params'], 'suffixes': info['suffixes'], 'unparsed': info['unparsed'],
-                                  'printer_fixes_in_source': info['printer_fixes'], 'printer_notes': info['printer_notes'],
+                                  'printer_fixes_in_source': info['printer_fixes'], 'netsubs_delegates_in_source': info['netsubs_delegates'],
+                                  'printer_notes': info['printer_notes'],
                                   'opts_constants': info['opts_constants'], 'suffix_aliases': info['suffix_aliases']}
     # ---- 2. proofs
     # Other processes may rewrite the generated table while we build (seeded-change runs of any property restore a
@@ -592,10 +593,11 @@ def run(chk, replay=None):
     info_reply = drv.ask1('c06.info')
     chk.coverage['model_table'] = info_reply
     n_rules_real = sum(len(v) for v in real.rules.values())
-    m = re.match(r'rules (\d+) ok (\w+) types (\d+) fixes (\w+) (\w+) (\w+)', info_reply)
+    m = re.match(r'rules (\d+) ok (\w+) types (\d+) fixes (\w+) (\w+) (\w+) netsubs (\w+)', info_reply)
     want_fix = ' '.join('true' if info['printer_fixes'][k] else 'false' for k in ('C06-e', 'C06-a', 'C06-b'))
     if (not m or int(m.group(1)) != n_rules_real or m.group(2) != 'true' or int(m.group(3)) != len(real.rules)
-            or ' '.join(m.group(4, 5, 6)) != want_fix):
+            or ' '.join(m.group(4, 5, 6)) != want_fix
+            or m.group(7) != ('true' if info['netsubs_delegates'] else 'false')):
         disagreements.append({'what': 'table-size', 'model': info_reply, 'lcapy': '%d rules %d types' % (n_rules_real, len(real.rules))})
         chk.coverage['correspondence']['disagreements'] += 1
 
@@ -735,49 +737,62 @@ def run(chk, replay=None):
             chk.count('degenerate', 'lcapy-rejects-at-construction')
             return 'rejected-at-construction'
         t1o = [rec_of_cpt(e) for e in c1._elements.values()]
-        # ---------- the library's second printer, Cpt._netsubs (used by subs / rename_nodes / zeroing): with no
-        # substitution it must denote the same component as str(cpt) does (judged by the Lean spec predicate)
+        # ---------- the library's second printer, Cpt._netsubs (used by subs / rename_nodes / zeroing).
+        # (i) correspondence with the model's `netSubs`; (ii) oracle: with no substitution it must denote the same
+        # component as str(cpt) does -- the two PRINTED lines are parsed and their parses compared with each other by
+        # the Lean spec predicate.  A print -> parse defect of the printer itself (shared by both) is not this
+        # oracle's business: it is reported once, by the round-trip oracle below, under its own cause.
+        rec_by_name = dict((r.name, r) for r in t1)
+        anon_pat = r'^(.*\.)?[AOWP]anon\d+$'
         for e in c1._elements.values():
             if e.type == 'XX':
                 continue
             try:
                 ns = e._netsubs()
+                st = str(e)
             except Exception as ex:   # noqa
                 chk.count('netsubs', 'raises:' + type(ex).__name__)
                 continue
-            recs, errn = real.stub_parse(ns)
-            if errn is not None or len(recs) != 1:
-                vn = 'reparse-error'
+            r0 = rec_by_name.get(e.name)
+            if r0 is not None and len(set(names)) == len(names):
+                mn = drv.ask1('c06.netsubs ' + r0.wire())
+                chk.coverage['correspondence']['compared'] += 1
+                if mn == 'unprintable':
+                    if 'def' not in text:
+                        disagree('netsubs-model-refuses', text, ns, mn)
+                elif not mn.startswith('ok ') or dec(mn[3:]) != ns:
+                    disagree('netsubs-text', text, ns, dec(mn[3:]) if mn.startswith('ok ') else mn)
+            if ns == st:
+                chk.count('netsubs', 'same-text')
+                continue
+            recs_n, err_n = real.stub_parse(ns)
+            recs_s, err_s = real.stub_parse(st)
+            if err_n is not None or err_s is not None:
+                vn = 'ok' if (err_n == err_s and [r.tup() for r in recs_n] == [r.tup() for r in recs_s]) else 'reparse-error'
+            elif len(recs_n) != 1 or len(recs_s) != 1:
+                vn = 'component-count'
             else:
-                anon = r'^(.*\.)?[AOWP]anon\d+$'
-                if re.match(anon, e.name) and re.match(anon, recs[0].name):
-                    recs[0].name = e.name      # anonymous names are handed out by position in the netlist
-                vn = spec_verdict([rec_of_cpt(e)], recs, 'x', 'x')
+                if re.match(anon_pat, recs_s[0].name) or re.match(anon_pat, e.name):
+                    recs_n[0].name = recs_s[0].name      # anonymous names are handed out by position in the netlist
+                vn = spec_verdict(recs_s, recs_n, 'x', 'x')
             chk.count('netsubs', 'same-component' if vn == 'ok' else 'differs:' + vn)
             if vn != 'ok':
                 kp = e.keyword[0] if isinstance(e.keyword, tuple) else None
-                sargs = [str(a) for a in e.args if a is not None]
                 if kp == 0 and e.keyword[1] != '' and len(e.node_names) > 0:
                     cause = 'netsubs-keyword-position'
                 elif any(a is None for a in list(e.args)[:-1]):
                     cause = 'netsubs-drops-undefined-arg'
-                # _netsubs shares _arg_format with str(cpt): the same three value defects show up here
-                elif any(a.lower() in kw_by_type.get(e.type, ()) for a in sargs):
-                    cause = 'value-is-keyword'
-                elif any(a == '' for a in sargs):
-                    cause = 'empty-value'
-                elif any(a[:1] in ('{', '"') for a in sargs):
-                    cause = 'value-starts-with-quote'
                 else:
                     cause = 'netsubs-other'
                 state['cex'] += 1
                 k2 = {'kind': 'roundtrip', 'cause': cause}
                 if cause == 'netsubs-other':
                     k2.update({'rule': e.classname, 'clause': vn})
-                chk.counterexample(k2, {'input': text, 'lcapy': {'component': e.name, 'str': str(e), '_netsubs': ns,
-                                                                  'reparsed': [r.tup() for r in recs], 'error': errn},
-                                        'meta': meta, 'spec': 'Cpt._netsubs() (no substitution) denotes the same component as str(cpt): ' + vn},
-                                   'the printer used by subs()/rename_nodes() writes a different component (%s)' % vn)
+                chk.counterexample(k2, {'input': text, 'lcapy': {'component': e.name, 'str': st, '_netsubs': ns,
+                                                                  'str_parsed': [r.tup() for r in recs_s], 'netsubs_parsed': [r.tup() for r in recs_n],
+                                                                  'errors': [err_s, err_n]},
+                                        'meta': meta, 'spec': 'parse(cpt._netsubs()) = parse(str(cpt)): ' + vn},
+                                   'the printer used by subs()/rename_nodes() writes a different component than str() (%s)' % vn)
         nontrivial = p1.strip() not in names
         chk.case(text, nontrivial)
         t2, err2 = real.stub_parse(p1)
